@@ -67,9 +67,14 @@ def units(tier):
                          max_epochs_unpatched=7, acc_stub=fire, p0=2, fit_intercept=fi, ws_strategy='subdiff', warm=True))
     runs.append(dict(solver='GramCD', datafit='Quadratic', penalty='L1', X='corr32', max_iter=1, max_iter_unpatched=8,
                      acc_stub=1, use_acc=True, greedy_cd=False, warm=True, fit_intercept=False))
+    # two outer iterations with a one-feature working set that changes in between, an extrapolation proposed in each:
+    # state kept across outer iterations (accelerator buffers) must not leak into the accepted point
+    runs.append(dict(solver='AndersonCD', datafit='Quadratic', penalty='L1', X='corr33', max_iter=2, max_epochs=1,
+                     max_epochs_unpatched=7, acc_stub=1, p0=1, fit_intercept=False, ws_strategy='subdiff', warm=True,
+                     w0_concrete=[2.0, 0.0, 0.0], ylabels=[1.0, -2.0, 3.0], acc_catalogue=[1.0, -0.5, 0.0], two_iter=True))
     for c in runs:
         cid = ','.join('%s=%s' % (k, c[k]) for k in sorted(c))
-        us.append(Unit('C03/D/run[%s]' % cid, ST.u_run, dict(cfg=c, want=('acceptance',) if c.get('acc_stub') else ('descent', 'history')), wall_s=150, max_paths=5000,
+        us.append(Unit('C03/D/run[%s]' % cid, ST.u_run, dict(cfg=c, want=(('history',) if c.get('two_iter') else ('acceptance',)) if c.get('acc_stub') else ('descent', 'history')), wall_s=150, max_paths=5000,
                        timeout_ms=8000, patched=bool(c.get('K') or c.get('acc_stub'))))
     for K, dim in ((2, 2), (2, 3)) if q else ((2, 2), (2, 3), (3, 2)):
         us.append(Unit('C03/K/extrapolate-contract[K=%d,dim=%d]' % (K, dim), ST.u_extrapolate_contract,
